@@ -319,7 +319,21 @@ def list_method(ip, st, lref: LRef, name, args, kwargs):
         return LRef(s)
     if name == "reverse":
         base = Q.to_sseq(s)
-        lref.seq = SSeq(n, lambda i: base.get(n - 1 - i), base.shape, None, "rev") if not isinstance(s, tuple) else tuple(reversed(s))
+        if isinstance(s, tuple):
+            lref.seq = tuple(reversed(s))
+            return None
+        # model fields of the reversed list: the sum of its first k elements is the sum of the last k elements of
+        # the original, P(n) - P(n - k) (for `psum` and for every component prefix sum `cpsum[c]`); the defining
+        # equation r.P(k+1) = r.P(k) + r[k] is then the original's equation at index n-1-k, which the original's
+        # getter instantiates when r[k] = base[n-1-k] is read
+        rpsum = None
+        if base.psum:
+            rpsum = lambda k, f=base.psum: f(n) - f(n - k)  # noqa: E731
+        r = SSeq(n, lambda i: base.get(n - 1 - i), base.shape, rpsum, "rev")
+        for c, f in base.cpsum.items():
+            r.cpsum[c] = lambda k, f=f: f(n) - f(n - k)
+        r.measure = base.measure
+        lref.seq = r
         return None
     if name == "__imul__":
         k = st.force(args[0])
